@@ -283,11 +283,12 @@ func ferun(c *Ctx) {
 				}
 				lc := runCmd(dir, cenv, exe, "-l")
 				impl := J{"list": l.stdout, "listColor": lc.stdout, "help": help}
+				impl["usage"] = runCmd(dir, env, exe, "-h").stdout // through mage this is the front end's own usage: not compared
 				if l.status != 0 {
 					impl["listStatus"] = l.status
 					impl["stderr"] = l.stderr
 				}
-				c.Emit(J{"op": "fe.text", "project": p, "fields": fields, "docText": dt, "syn": sy, "bin": bin, "helpWords": hw, "colorEnv": colorEnv}, impl, "text", "way="+way, fmt.Sprintf("colored=%v", strings.Contains(lc.stdout, "\x1b[")))
+				c.Emit(J{"op": "fe.text", "project": p, "fields": fields, "docText": dt, "syn": sy, "bin": bin, "helpWords": hw, "colorEnv": colorEnv, "wantUsage": way == "static"}, impl, "text", "way="+way, fmt.Sprintf("colored=%v", strings.Contains(lc.stdout, "\x1b[")))
 			}
 		}
 		arity := map[string][]string{}
